@@ -9,6 +9,7 @@ import (
 	"encoding/json"
 	"fmt"
 	"math/rand"
+	"regexp"
 	"runtime/debug"
 	"sort"
 	"strings"
@@ -758,7 +759,7 @@ func checkNo5xx(r *runner) []Violation {
 			if or.Op.Kind == KRaw && or.Op.Raw != nil {
 				what = fmt.Sprintf("%s %s body=%s", or.Op.Raw.Method, or.Op.Raw.Path, truncate(or.Op.Raw.Body, 400))
 			}
-			vs = append(vs, Violation{r.sc.Property, "client-side-fault-never-answered-5xx", fmt.Sprintf("%s %s answered %d %s %s %s with faults %v", or.Op.ID, what, or.Out.Status, or.Out.Code, or.Out.Msg, or.Out.Class, or.Faults)})
+			vs = append(vs, Violation{r.sc.Property, "client-side-fault-never-answered-5xx", fmt.Sprintf("%s %s answered %d %s %s %s with faults %v%s", or.Op.ID, what, or.Out.Status, or.Out.Code, or.Out.Msg, or.Out.Class, or.Faults, requestShape(or.Op))})
 		}
 	}
 	return vs
@@ -862,4 +863,36 @@ func (r *runner) execWalk(op *Op, res *OpResult) {
 	r.byID[op.ID] = res
 	r.doneLines = append(r.doneLines, fmt.Sprintf("done %s walk %s size=%d sort=%s -> %d pages, last %d %s", op.ID, ws.Resource, ws.PageSize, ws.Sort, len(res.Pages), pg.Status, pg.Code))
 	r.w.mu.Unlock()
+}
+
+var (
+	reShapeNum = regexp.MustCompile(`[0-9]+`)
+	reShapeKey = regexp.MustCompile(`"(\$[a-z]+)":\{"([a-z_]+)`)
+)
+
+// requestShape: a stable tag for a raw request - method, path without its numbers, the names of its query
+// parameters, the operator:field pairs of a filter body - so that different requests failing for different
+// reasons are reported (and can be listed as known findings) separately.
+func requestShape(op *Op) string {
+	if op.Kind != KRaw || op.Raw == nil {
+		return ""
+	}
+	path, query, _ := strings.Cut(op.Raw.Path, "?")
+	var names []string
+	for _, kv := range strings.Split(query, "&") {
+		if kv == "" {
+			continue
+		}
+		k, v, _ := strings.Cut(kv, "=")
+		if k == "sort" || k == "expand" {
+			k += "=" + v
+		}
+		names = append(names, k)
+	}
+	sort.Strings(names)
+	var keys []string
+	for _, m := range reShapeKey.FindAllStringSubmatch(op.Raw.Body, -1) {
+		keys = append(keys, m[1]+":"+m[2])
+	}
+	return fmt.Sprintf(" [%s %s ?%s %s]", op.Raw.Method, reShapeNum.ReplaceAllString(path, "N"), strings.Join(names, ","), strings.Join(keys, ","))
 }
